@@ -84,9 +84,12 @@ type Behaviour struct {
 	BlockLieAll int // applies to every block request when != 0
 
 	// Tx relay: what to do with a tx inv from the client.
-	TxMode       int // 0 getdata then accept silently, 1 getdata then reject, 2 ignore inv, 3 reject without getdata
-	RejectCode   wire.RejectCode
-	RejectReason string
+	// ForeignReject: after asking for a transaction the node also sends a
+	// reject naming a different transaction.
+	ForeignReject bool
+	TxMode        int // 0 getdata then accept silently, 1 getdata then reject, 2 ignore inv, 3 reject without getdata
+	RejectCode    wire.RejectCode
+	RejectReason  string
 }
 
 func (b *Behaviour) honest() bool {
@@ -836,6 +839,16 @@ func (p *SimPeer) onInv(m *wire.MsgInv) {
 			gd.AddInvVect(wire.NewInvVect(iv.Type, &iv.Hash))
 			p.noteTx(&p.txGetDataSent, iv.Hash)
 			p.send(gd)
+			if p.beh.ForeignReject {
+				// a reject that names some other transaction (e.g. one
+				// being rebroadcast at the same time): says nothing about
+				// this one
+				other := chainhash.DoubleHashH(append([]byte("some-other-tx"), iv.Hash[:]...))
+				rej := wire.NewMsgReject(wire.CmdTx, p.beh.RejectCode, p.beh.RejectReason)
+				rej.Hash = other
+				p.w.rc.Fault("tx.reject-for-another-tx")
+				p.send(rej)
+			}
 		case 2:
 		case 3:
 			p.sendReject(iv.Hash)
